@@ -111,9 +111,8 @@ func (h *Harness) rollTie(w Workload, wr *WlRun) {
 // write (or at the end) the (data file, fpos, blen) of EVERY record must be what the model computes for "open, writeOne …".
 func (h *Harness) rollTie2(w Workload, c *s2case, sc SecondCap) {
 	r := h.r
-	capDir := strings.TrimRight(c.dir, "/") + ".s2/" + sc.Name + "/"
-	idx, err := os.ReadFile(capDir + "blockchain.new")
-	if err != nil || len(c.idx0)%136 != 0 || len(idx)%136 != 0 || len(idx) < len(c.idx0) || len(idx) == 0 {
+	idx, have := c.capIdx[sc.Name]
+	if !have || len(c.idx0)%136 != 0 || len(idx)%136 != 0 || len(idx) < len(c.idx0) || len(idx) == 0 {
 		r.Hit("roll-tie:skipped")
 		return
 	}
